@@ -199,6 +199,8 @@ impl Message<UpdateConfirmationWithBroadcast> for ConfirmationActor {
         msg: UpdateConfirmationWithBroadcast,
         _ctx: &mut Context<Self, Self::Reply>,
     ) -> Self::Reply {
+        #[cfg(feature = "verif")]
+        crate::verif::hold("confirm:update", msg.partition_id as u64, 0).await;
         // Update confirmations
         let mut results = SmallVec::new();
         for version in &msg.versions {
